@@ -181,6 +181,21 @@ func (w *World) ledgerProbes(full bool, withIGP bool) []Probe {
 			out = append(out, mk(orbEnc[0], memoM{fmt.Sprintf("%s/fee%d", f, fi), Memo(f, fees), &f, fees}, "channel-0", denomUSDC, "4000", false))
 		}
 	}
+	// (3b') a passthrough payload within a raised limit (refused while the limit is 0; executed in the states after
+	// UpdateParams(8), also with a stray balance on the account): the payload must not change any fund movement
+	for _, f := range []Fwd{w.FwdCCTP(0), w.FwdInternal(w.Bob), w.FwdHyp(1)} {
+		f := f
+		f.Passthrough = []byte{1, 2, 3}
+		f.Tag = f.String() + "+passthrough3B"
+		for fi, fees := range w.feeMenu()[:2] {
+			out = append(out, mk(orbEnc[0], memoM{fmt.Sprintf("%s/fee%d", f, fi), MemoJSON(f, func() []string {
+				if fees == nil {
+					return nil
+				}
+				return []string{feeActionJSON(fees)}
+			}()...), &f, fees}, "channel-0", denomUSDC, "4000", false))
+		}
+	}
 	// (3c) packet data that is a valid orbiter-addressed ICS-20 document FOLLOWED by something (ICS-20's own decoder reads the
 	// first JSON value and ignores the rest): whichever way the middleware classifies it, nothing may stay on the account
 	for _, tail := range []string{"x", "}", "{}", " null", "\x00", "\n\n{\"orbiter\":1}", ",", "]"} {
